@@ -17,6 +17,16 @@ Two cooperating parts over one bounded-exhaustive set of generated functions:
 
 Generator: expression forms x result type {int,long,float,double,long double,int*,struct S (regs),struct L (memory),
 void} x consumption context, indexed by size (number of composite nodes).  See `rule` in the evidence.
+
+Signatures name the *simplest* enumerated case that shows the anomaly (root-cause attribution): the consumption
+context with a plain variable (`C20|ctx=exprstmt|ty=e|...`), else the smallest sub-expression / its form with plain
+operands in the neutral context `T v = E` (`C20|form=assign.e(v)|...`); jumps out of statement expressions are one
+class per jump kind and leaked resource (`C20|jump-out-of-stmtexpr|break|leaks=rsp`).
+Anomaly tokens: `S:` from the model (x87-underflow, x87-at-return=+k, x87-not-single-valued, rsp-not-single-valued(-k),
+rsp-at-return, x87-at-statement-boundary, rsp-differs-between-statement-boundaries), `D:` measured on the machine
+(x87-per-call=+k, x87-top-moved=k, rsp-drift-in-loop=-k/iteration, result-differs-from-gcc-twin, crash-signalN).
+
+`python3 checks/c20.py replay <dir> <chibicc>` re-runs one case from a replay directory (exit 1 = reproduces).
 """
 import os, re, sys, json, itertools, hashlib
 
@@ -25,7 +35,7 @@ if __name__ == "__main__":
 from vlib import core, twin
 
 LEVEL = "model_checking"
-BUDGET = {"quick": 600, "thorough": 2400}
+BUDGET = {"quick": 600, "thorough": 3600}
 BATCH = 1500
 
 HARNESS = os.path.join(core.VERIF, "harness")
@@ -50,7 +60,8 @@ OPNAME = {"+": "add", "-": "sub", "*": "mul", "/": "div", "%": "mod", "&": "and"
 LEAF_RHS = ("/", "%", "<<", ">>")      # right operand restricted to a read-only leaf (never 0, shift count in range)
 REP_ARITH = ("+",)                      # representative operators used as *parents* at size 3
 REP_CMP = ("<",)
-SAFE_DEREF = ("v", "assign", "cond", "comma", "call", "stmtexpr", "addr")
+SAFE_DEREF = ("v", "assign", "cond", "comma", "call", "stmtexpr", "addr", "complit", "elvis")
+UNSAFE_PTR = ("padd", "psub", "asg.p", "inc.p", "dec.p", "cast.l>p")      # pointer may leave gi[]: never dereferenced
 
 
 class Gen:
@@ -97,6 +108,8 @@ class Gen:
                     continue
                 for (s1, d1) in self.sub(U1, a, idx + 1, 0, reps):
                     for (s2, d2) in self.sub(U2, b, idx + 1 + a, 1, reps):
+                        if "bf" in d1 and "bf" in d2:
+                            continue        # two accesses to the bit-field unit would be unsequenced
                         out.append((fmt % (s1, s2), "%s(%s,%s)" % (name, d1, d2)))
 
         if T in ARITH:
@@ -118,7 +131,8 @@ class Gen:
                 if m == 0:
                     out.append(("gb.z", "bfread.z"))
                 for s, d in A("l"):
-                    out.append(("(gb.z = (%s & 255))" % s, "bfstore.z(%s)" % d))
+                    if "bf" not in d:
+                        out.append(("(gb.z = (%s & 255))" % s, "bfstore.z(%s)" % d))
             if T == "i":
                 for U in SCALAR:
                     un("(!%s)", "not." + U, U)
@@ -133,13 +147,14 @@ class Gen:
                 for U in ARITH:
                     un("((char)%s)", "cast.%s>c" % U, U)
                 for s, d in A("p"):
-                    if d.split("(")[0].split(".")[0] in SAFE_DEREF:
+                    if d.split("(")[0].split(".")[0] in SAFE_DEREF and not any(w in d for w in UNSAFE_PTR):
                         out.append(("(*%s)" % s, "deref(%s)" % d))
                 un("(%s.b)", "member.Sb", "S")
                 for s, d in A("i"):
                     out.append(("(gs[%d].c = %s)" % (lv, s), "mstore(%s)" % d))
-                    out.append(("(gb.x = (%s & 7))" % s, "bfstore.x(%s)" % d))
-                    out.append(("(gb.y += (%s & 3))" % s, "bfaddasg.y(%s)" % d))
+                    if "bf" not in d:
+                        out.append(("(gb.x = (%s & 7))" % s, "bfstore.x(%s)" % d))
+                        out.append(("(gb.y += (%s & 3))" % s, "bfaddasg.y(%s)" % d))
                     out.append(("k7(1, 2, 3, 4, 5, 6, %s)" % s, "call.k7(%s)" % d))
                     out.append(("k8(1, 2, 3, 4, 5, 6, 7, %s)" % s, "call.k8(%s)" % d))
                 if m == 0:
@@ -186,16 +201,11 @@ class Gen:
             bi("k2%s(%%s, %%s)" % T, "call.k2" + T, T, T)
         if m == 0:
             out.append(("f%s()" % T, "call.f" + T))
-        else:
-            # cast to void of anything; void has no leaves
-            pass
         if T == "v":
             for U in ALLT:
                 un("((void)%s)", "cast.%s>v" % U, U)
         # ?: , comma, statement expression for every type
         if T == "v":
-            if m >= 2 or m == 0:
-                pass
             for a in range(m - 1, 0, -1):
                 for (s1, d1) in self.sub(T, a, idx + 1, 0, reps):
                     for (s2, d2) in self.sub(T, m - a, idx + 1 + a, 1, reps):
@@ -851,8 +861,11 @@ class _Shim:
         self.chibicc = chibicc
 
 
+PRELUDE_FILE = os.path.join(HARNESS, "c20_unit.h")
+
+
 def unit_prelude():
-    return open(os.path.join(HARNESS, "c20_unit.h")).read()
+    return open(PRELUDE_FILE).read()
 
 
 def build_sources(cases):
@@ -974,14 +987,14 @@ def _compile_filtering(compile_fn, wd, name, cases, on_reject):
             if len(cases) == 1:
                 bad = {0}
             else:
+                # no usable line information (crash, assembler error): bisect
                 h = len(cases) // 2
                 a = _compile_filtering(compile_fn, wd, name, cases[:h], on_reject)
                 b = _compile_filtering(compile_fn, wd, name, cases[h:], on_reject)
-                cases = (a[0] if a else []) + (b[0] if b else [])
-                # both halves compile alone; compile the union once more (falls through to the loop)
-                if len(cases) == h + (len(cases) - h) and a and b and len(a[0]) == h and len(b[0]) == len(cases) - h:
-                    # each half is fine but the whole is not: treat as harness problem of batch size, run halves merged anyway
+                survivors = (a[0] if a else []) + (b[0] if b else [])
+                if len(survivors) == len(cases):
                     raise core.HarnessError("unit compiles in halves but not as a whole: " + str(err)[-500:])
+                cases = survivors
                 continue
         for k in sorted(bad):
             on_reject(cases[k], err)
@@ -1012,16 +1025,22 @@ def _run_cases(chibicc, wd, name, cases, rt_objs, depth=0):
     def ref_reject(case, err):
         out["ref_rejected"] += 1
         out["results"][case[0]] = {"skip": "ref-rejected"}
-    r = _compile_filtering(cc, wd, name, cases, cc_reject)
+    # the reference compiler first: a case gcc rejects is a generator problem (counted, skipped), never a verdict
+    r = _compile_filtering(ref, wd, name, cases, ref_reject)
     if r is None:
         return out
-    r = _compile_filtering(ref, wd, name, r[0], ref_reject)
+    n_ref = len(r[0])
+    r = _compile_filtering(cc, wd, name, r[0], cc_reject)
     if r is None:
         return out
-    if len(r[0]) != len(cases):
-        # recompile chibicc's object for the surviving set (function numbering changed)
-        r2 = _compile_filtering(cc, wd, name, r[0], cc_reject)
+    if len(r[0]) != n_ref:
+        # recompile the reference object for the surviving set (function numbering changed)
+        r2 = _compile_filtering(ref, wd, name, r[0], ref_reject)
         if r2 is None or len(r2[0]) != len(r[0]):
+            raise core.HarnessError("case set unstable under filtering")
+        # and leave the unit file / assembly of the chibicc twin in place for the model
+        r = _compile_filtering(cc, wd, name, r[0], cc_reject)
+        if r is None or len(r[0]) != len(r2[0]):
             raise core.HarnessError("case set unstable under filtering")
     cases, unit, drv, table = r
     dsrc = os.path.join(wd, name + "_d.c")
@@ -1287,7 +1306,10 @@ REPLAY_SH = """python3 "$VERIF/checks/c20.py" replay . "$CHIBICC"
 
 def replay_main(d, chibicc):
     """Re-run one case from a replay directory: exit 1 iff the recorded anomaly class reproduces."""
+    global PRELUDE_FILE
     info = json.load(open(os.path.join(d, "case.json")))
+    if os.path.exists(os.path.join(d, "c20_unit.h")):
+        PRELUDE_FILE = os.path.join(d, "c20_unit.h")      # the prelude the case was generated against
     wd = os.path.join(d, "w")
     os.makedirs(wd, exist_ok=True)
     rt = build_rt(wd)
@@ -1364,6 +1386,7 @@ def run(ctx):
 
 def judge(ctx, cases, results, ref_rejected, cc_fail, callees):
     by_id = {c["id"]: c for c in cases}
+    prelude_text = unit_prelude()
     # the shared callees (every return class, 0..8 parameters) are model-checked once
     callee_states = callee_unmodelled = 0
     for name, m in sorted(callees.items()):
@@ -1439,7 +1462,8 @@ def judge(ctx, cases, results, ref_rejected, cc_fail, callees):
         for label, dev in root_causes(c, r, results):
             sig = "C20|%s|%s" % (label, dev)
             ctx.violation(sig, desc,
-                          files={"case.c": src, "case.json": json.dumps({"id": c["id"], "fns": fl, "expect": expect, "sig": sig})},
+                          files={"case.c": src, "c20_unit.h": prelude_text,
+                                 "case.json": json.dumps({"id": c["id"], "fns": fl, "expect": expect, "sig": sig})},
                           replay=REPLAY_SH)
     if judged == 0 or states == 0 or validated == 0:
         raise core.HarnessError("vacuous run: judged=%d states=%d validated=%d" % (judged, states, validated))
@@ -1481,14 +1505,17 @@ def judge(ctx, cases, results, ref_rejected, cc_fail, callees):
 
 
 RULE = {
-    "quick": "every expression form (all operators, casts between all scalar classes, ?:, &&, ||, comma, =, op=, ++/--, member and "
-             "bit-field stores, calls of every return class with 0/1/2 register and 1/2/4 stack argument words, statement "
-             "expressions) of size 0..1 composite nodes x result type {int,long,float,double,long double,int*,struct in "
-             "registers,struct in memory,void} x 14 consumption contexts; every size-2 composition in contexts init and "
-             "expression statement; every jump kind {break,continue,goto,goto*,return,none} out of a statement expression x "
-             "pending-temporary shape x type; alloca/VLA idioms. Right operands of / % << >> are read-only leaves.",
-    "thorough": "as quick, with every size-2 composition in all 14 contexts and every size-3 composition in context init "
-                "(size-3 parents restricted to one representative per code path: + among arithmetic, < among comparisons).",
+    "quick": "every expression form (all arithmetic/bitwise/shift/comparison/logical operators, casts between all scalar classes and "
+             "to _Bool/char/void, ?: and GNU ?:, comma, =, op=, ++/--, member/bit-field loads and stores, compound literals, * and &, "
+             "pointer arithmetic, calls of every return class with 0/1/2 register arguments and 1/2/3/6 stack argument words, "
+             "statement expressions) of size 0..1 composite nodes x result type {int,long,float,double,long double,int*,16-byte "
+             "struct (registers),24-byte struct (memory),void} x 14 consumption contexts {expression statement, for-increment, "
+             "comma lhs, call argument, left/right operand, initializer, if/while/do/for condition, ?: condition, switch, return}; "
+             "every size-2 composition in the contexts initializer and expression statement; every jump kind "
+             "{break,continue,goto,goto*,return,none} out of a statement expression x 13 pending-temporary shapes x 6 types; "
+             "6 alloca/VLA idioms.  Right operands of / % << >> are read-only leaves; one lvalue object per composite node.",
+    "thorough": "as quick, with every size-2 composition in all 14 contexts and every size-3 composition in the context initializer "
+                "(size-3 parents restricted to one representative per code path: + among arithmetic and op=, < among comparisons).",
 }
 
 
